@@ -142,7 +142,12 @@ def run(ctx):
                 A = cola.SelfAdjoint(A)
             sas, cur = [], A
             for ch in w:
-                sas.append(bool(cur.isa(cola.SelfAdjoint)))
+                # value of the shortcut condition of the transpose / adjoint rule at this step (the repaired transpose rule
+                # also requires a real dtype)
+                sa_ = bool(cur.isa(cola.SelfAdjoint))
+                if ch == "T" and "sa_transpose_id" not in present and "complex" in str(cur.dtype):
+                    sa_ = False
+                sas.append(sa_)
                 cur = cur.T if ch == "T" else cur.H
             # recorded finding: complex operand + self-adjoint shortcut on a transpose step
             tree_cplx = any(d in T.CPLX for d in O.leaf_dts(t))
